@@ -4,7 +4,7 @@ from __future__ import annotations
 from typing import Dict, Iterable, List, Optional, Set, Tuple
 
 from ..effects import AV, ELEM, Effect, Effects, Summary, fmt_origin, State, _Interp
-from ..model import AnalysisError, Func, Program
+from ..model import AnalysisError, Func, Program, norm_key
 
 def engine(prog: Program) -> Effects:
     """One effect engine per program model (cached on the model object)."""
@@ -312,3 +312,31 @@ def check_identity_comparisons(ck, prog, rule: str, pid: str):
                 ck.violation(rule, f.qualname, _nk(c, 80), f"`{_unparse(c)[:90]}` compares identities, not values: equal values that are different objects (a string "
                              f"read from a file, a number computed elsewhere, a numpy boolean) take the other branch", loc=f.loc(c))
     ck.ok(rule, f"identity comparisons ({pid})", f"{n} identity comparisons, all against None", nontrivial=False)
+
+
+
+NARROW_FLOATS = {"np.float32", "numpy.float32", "np.single", "np.float16", "np.half", "np.complex64", "'float32'", "'f4'", "'f'", "'float16'", "'f2'", "'single'",
+                 "'complex64'", "np.csingle", '"float32"', '"f4"', '"f"', '"float16"', '"single"'}
+
+
+def check_no_narrow_float_buffers(ck, prog, rule: str, modules, why: str):
+    """No array of the numerical pipeline is allocated or converted with a reduced-precision floating-point type: values written into such
+    a buffer are rounded to about 7 significant digits (and overflow beyond 3e38) before the ratio is formed."""
+    import ast as _ast
+    from ..astutil import call_name as _cn, kwarg as _kw, unparse as _un
+    n = 0
+    for f in prog.funcs.values():
+        if f.module.name not in modules or f.kind == "lambda":
+            continue
+        for c in _ast.walk(f.node):
+            if not isinstance(c, _ast.Call):
+                continue
+            dt = _kw(c, "dtype")
+            if dt is None and _cn(c) == "astype" and c.args:
+                dt = c.args[0]
+            if dt is None:
+                continue
+            n += 1
+            if _un(dt) in NARROW_FLOATS:
+                ck.violation(rule, f.qualname, f"reduced precision: {_un(dt)}", f"`{norm_key(c, 80)}` holds its values as {_un(dt)}: {why}", loc=f.loc(c))
+    ck.ok(rule, "buffer element types", f"{n} explicit element types, none of reduced floating-point precision", nontrivial=False)
